@@ -17,14 +17,14 @@ RULE = ("files x read options x short handle histories. Files: W = written by fa
         "with and without a plain-encoded fallback row group); H = hive datasets with 1-2 partition columns; "
         "I = frames written with a named index of 14 kinds (ints, floats, text, bool, masked, categorical, "
         "timestamps of several units and time zones, timedelta; with and without a missing value in the index; also the zero-row slice pf[:0] of such a file and the file written from zero rows); "
-        "I2 = frames written with a two-level index. Options: columns (None, each single, reversed; on hive datasets also selections naming the partition columns before / between / after data columns and in reversed level order), categories "
+        "I2 = frames written with a two-level index; W2 = two categorical columns with the same number of labels and different order flags. Options: columns (None, each single, reversed; on hive datasets also selections naming the partition columns before / between / after data columns and in reversed level order), categories "
         "(None, list, dict, [] and {} = decline the stored categoricals; list / dict also on dictionary-encoded "
         "foreign columns), index (None, False, name of another data or partition column, list of two names), "
         "pandas_nulls (True, False), dtypes override (per column int -> float64 / masked int, masked -> float64; "
         "through to_pandas(dtypes=) and through the constructor). Histories: one handle used for two reads with "
         "different options (a changed option followed by the default read; every ordered pair in "
         "thorough) against a fresh handle. Oracle: columns / dtypes / categories / cats / _get_index / count / "
-        "num_rows / info versus the frame returned, versus every frame of iter_row_groups, versus head(), and "
+        "num_rows / info / the order flag of categoricals in the pandas metadata versus the frame returned, versus every frame of iter_row_groups, versus head(), and "
         "versus the predictions and counts of every sliced handle pf[i]; non-trivial = a read that returned >= 1 row and was "
         "compared")
 ASSUMPTIONS = ["dtype compared by kind + width + nullable-extension-ness + category-ness",
@@ -115,6 +115,10 @@ def points(tier):
     for a, b in I2_PAIRS:
         for nrg in (1, 2):
             pts.append({"f": "I2", "kinds": a + "+" + b, "nrg": nrg})
+    # W2: two categorical columns with the same number of labels and different order flags (either way round)
+    for first_ordered in (True, False):
+        for nrg in (1, 2):
+            pts.append({"f": "W2", "first_ordered": first_ordered, "nrg": nrg})
     for p in pts:
         p["tier"] = tier
     return pts
@@ -296,6 +300,17 @@ def check_read(c, pf, what, cols, carg, index, m, parts=True):
     if got_cols != [str(x) for x in want_cols]:
         c.bad("columns", "%s opts=%r: predicted columns %r, frame has %r" % (what, c.ctx, want_cols, got_cols))
         return df
+    # the order flag of a categorical is announced by the pandas metadata
+    try:
+        announced = {str(x["name"]): (x.get("metadata") or {}).get("ordered")
+                     for x in ((pf.pandas_metadata or {}).get("columns") or []) if x.get("pandas_type") == "categorical"}
+    except Exception:
+        announced = {}
+    for col in got_cols:
+        adt = actual_dtype(df, col)
+        if announced.get(col) is not None and hasattr(adt, "ordered") and bool(adt.ordered) != bool(announced[col]):
+            c.bad("ordered_flag", "%s opts=%r: categorical %s announced ordered=%s, read gives ordered=%s" % (
+                what, c.ctx, col, announced[col], adt.ordered), col=col)
     for col in got_cols:
         if col not in m_dtypes:
             c.bad("dtype_missing", "%s: no predicted dtype for %s" % (what, col))
@@ -593,6 +608,22 @@ def run_W(c, p):
         compare(c, lambda pn, path=path, **k: fastparquet.ParquetFile(path, pandas_nulls=pn, **k),
                 "W %s nrg=%d nulls_in=%s v%d %s%s" % (kind, nrg, where, ver, scheme, " int96" if kw else ""),
                 ["a", "b"], index_names=("a",) if ver == 1 or p.get("tier") == "thorough" else (), extras=ver == 1)
+
+
+def run_W2(c, p):
+    import os
+    import pandas as pd
+    import fastparquet
+    from mc.scratch import scratch
+    nrg, fo = p["nrg"], p["first_ordered"]
+    n = 3 * nrg
+    df = pd.DataFrame({"a": pd.Categorical((["lo", "hi", "mid"] * nrg)[:n], categories=["lo", "mid", "hi"], ordered=fo),
+                       "b": pd.Categorical((["u", "w", "v"] * nrg)[:n], categories=["u", "v", "w"], ordered=not fo),
+                       "x": pd.Series(range(n), dtype="int64")})
+    path = os.path.join(scratch(), "t.parquet")
+    fastparquet.write(path, df, row_group_offsets=[3 * i for i in range(nrg)], write_index=False)
+    compare(c, lambda pn, path=path, **k: fastparquet.ParquetFile(path, pandas_nulls=pn, **k),
+            "W2 two categoricals (a ordered=%s, b ordered=%s) nrg=%d" % (fo, not fo, nrg), ["a", "b", "x"], extras=False)
 
 
 def run_I(c, p):
